@@ -157,7 +157,23 @@ class Site:
             return (v[0], self.subst(v[1]))
         return v
 
+    ATOM_FORMS = {
+        "lls": ("marginal_ln_likelihood_inmem(joker_helper, prior_samples_batch)", "marginal_ln_likelihood_helper(**ll_kw)"),
+        "all_marg_lls": ("np.array([])", "np.concatenate((all_marg_lls, marg_lls))"),
+        "idx": ("rng.choice(n_total_samples, size=n_prior_samples, replace=False)",),
+        "all_idx": ("np.arange(0, n_total_samples, 1)", "np.arange(0, max_prior_samples, 1)",
+                    "rng.choice(n_total_samples, size=max_prior_samples, replace=False)"),
+    }
+
     def stmt(self, st):
+        # the arrays the tracked expressions are built from may only be (re)bound in the forms the pinned source uses:
+        # the likelihood array is what the evaluation returned (or the concatenation of the batches so far), the order is an
+        # arange or a choice without replacement
+        for n in ast.walk(st) if not isinstance(st, (ast.If, ast.For, ast.While, ast.With, ast.Try)) else []:
+            if isinstance(n, ast.Name) and isinstance(n.ctx, (ast.Store, ast.Del)) and n.id in self.ATOM_FORMS:
+                ok = isinstance(st, ast.Assign) and len(st.targets) == 1 and isinstance(st.targets[0], ast.Name) and ast.unparse(st.value) in self.ATOM_FORMS[n.id]
+                if not ok:
+                    fail(st, f"`{n.id}` may only be bound as one of {self.ATOM_FORMS[n.id]}", self.fn)
         if isinstance(st, ast.Assign) and len(st.targets) == 1:
             t = st.targets[0]
             if isinstance(t, ast.Name) and t.id in TRACKED:
